@@ -80,6 +80,21 @@ def spans(report):
     return out
 
 
+def marked_lines(report, source):
+    """indices of the source lines that carry the syntax-error markup"""
+    lines = source.split("\n")
+    starts = [0]
+    for l in lines:
+        starts.append(starts[-1] + len(l) + 1)
+    out = set()
+    for t, a, b in spans(report):
+        if "rules-SyntaxError" in t:
+            for i in range(len(lines)):
+                if starts[i] <= a and b <= starts[i] + len(lines[i]) and b > a:
+                    out.add(i)
+    return sorted(out)
+
+
 def displayed(report, source, tree, atok, skips):
     """Each audited expression's inferred type / error, each restriction and each skipped line is
     shown by an element that lies inside the node's text."""
